@@ -272,13 +272,15 @@ func genHashBits(t *rapid.T, label string, inputLen int) int {
 // genPCfg draws a configuration of the given kind that NewParser is expected
 // to accept (construction, not rejection). maxBuf scales the buffer size.
 func genPCfg(t *rapid.T, kind string, maxBuf int) PCfg {
-	return genPCfgOpt(t, kind, maxBuf, true)
+	return genPCfgOpt(t, kind, maxBuf, false)
 }
 
 func genPCfgOpt(t *rapid.T, kind string, maxBuf int, eqShrink bool) PCfg {
 	c := PCfg{Kind: kind}
 	genGeometry(t, &c, maxBuf, eqShrink)
 	switch kind {
+	case "BUF":
+		// bare ParserBuffer: geometry only
 	case "HP", "BHP":
 		c.InputLen = rapid.SampledFrom([]int{3, 2, 4, 0, 5, 6, 7, 8}).Draw(t, "inputLen")
 		il := c.InputLen
